@@ -323,6 +323,14 @@ func FuzzC10(f *testing.F) {
 	var ts [16]byte
 	f.Add(authvar.EncodeAuth2(ts, authvar.Revision2, authvar.TypeEFIGUID, authvar.PKCS7GUID, []byte{1, 2, 3}))
 	f.Add(authvar.EncodeWinCert(authvar.Revision2, authvar.TypePKCS, []byte{1, 2, 3, 4, 5}))
+	for i := 0; i < 100; i++ {
+		c := rapid.Custom(genCase).Example(i)
+		if len(c.CertData) < 4096 && len(c.Time) == 16 && len(c.CertType) == 16 {
+			var ts [16]byte
+			copy(ts[:], c.Time)
+			f.Add(append(authvar.EncodeAuth2(ts, authvar.Revision2, authvar.TypeEFIGUID, guid.FromBE(c.CertType), c.CertData), c.Payload...))
+		}
+	}
 	f.Fuzz(hx.FuzzBody("C10", "FuzzC10", fuzzOracle))
 }
 
